@@ -27,6 +27,40 @@ MOVED = ["1;35", "1;36", "1;34", "1;33", "2;35", "3;36", "38;5;208", "38;2;10;20
          "95", "30;103", "97;100", "1;93;104", "91;107", "90;101", "96;102", "94;105", "92;106", "30;47", "37;40"]
 
 
+_ATTR = {1: "bold", 2: "dim", 3: "italic", 4: "ul", 5: "blink", 7: "reverse", 8: "hidden", 9: "strike"}
+_NAMES = ["black", "red", "green", "yellow", "blue", "magenta", "cyan", "white"]
+
+
+def sgr_to_style(sgr):
+    """The style string (git's colour language) that describes an SGR parameter list: attributes, foreground, background."""
+    ps = [int(x) for x in sgr.split(";")]
+    attrs, fg, bg = [], None, None
+    i = 0
+    while i < len(ps):
+        p = ps[i]
+        if p in _ATTR:
+            attrs.append(_ATTR[p])
+        elif 30 <= p <= 37:
+            fg = _NAMES[p - 30]
+        elif 90 <= p <= 97:
+            fg = "bright" + _NAMES[p - 90]
+        elif 40 <= p <= 47:
+            bg = _NAMES[p - 40]
+        elif 100 <= p <= 107:
+            bg = "bright" + _NAMES[p - 100]
+        elif p in (38, 48):
+            if ps[i + 1] == 5:
+                v, i = str(ps[i + 2]), i + 2
+            else:
+                v, i = '"#%02x%02x%02x"' % tuple(ps[i + 2:i + 5]), i + 4
+            if p == 38:
+                fg = v
+            else:
+                bg = v
+        i += 1
+    return " ".join(attrs + [fg or "normal"] + ([bg] if bg else []))
+
+
 def cell_rec(cs):
     return [[ord(g[0]) if len(g) == 1 else ord(g[0]) + 1000000, list(fg), list(bg), sorted(at)] for g, fg, bg, at, lk in cs]
 
@@ -68,6 +102,8 @@ def run(tier):
             jobs.append((h, m, 1 + (i % 4)))
         if i % 6 == 0:
             jobs.append((h, list(MODES)[(i // 6) % len(MODES)], 5))
+        if i % 6 == 3:
+            jobs.append((h, list(MODES)[(i // 6) % len(MODES)], 6))
     intern = gitskin.Interner()
 
     def ws_payload(k, c):
@@ -76,12 +112,15 @@ def run(tier):
     def bad_utf8_payload(k, c):
         # (a lone surrogate stands for a byte that is not valid UTF-8: Latin-1 text in a diff)
         return f"tokZ{k}Z caf\udce9 w{k % 3}" if k % 2 == 0 else f"tokZ{k}Z w{k % 3}"
+    def ctrl_payload(k, c):
+        # C0 control characters inside the text (nroff overstrike, bell, vertical tab, form feed)
+        return [f"tokZ{k}Z N\x08NA\x08AM\x08M w{k % 3}", f"tokZ{k}Z bell\x07 vt\x0b ff\x0c end", f"tokZ{k}Z w{k % 3}"][k % 3]
     enc = lambda t: t.encode("utf-8", "surrogateescape")
 
     def one(job):
         h, m, variant = job
-        if variant == 5:      # hunk lines that are not valid UTF-8
-            texts = gitskin.concretise_texts(h, payload=bad_utf8_payload)
+        if variant in (5, 6):      # hunk lines that are not valid UTF-8 / that contain control characters
+            texts = gitskin.concretise_texts(h, payload=bad_utf8_payload if variant == 5 else ctrl_payload)
             data = b"".join(enc(t) + b"\n" for t in texts)
         else:
             data, texts = gitskin.concretise(h, payload=ws_payload, skin={"frag": "long"} if m == "rs+maxlen100" else None)
@@ -106,7 +145,7 @@ def run(tier):
         ky, ry = passthrough(bc, [stream.normalise_line(t.encode("utf-8", "surrogateescape")) for t in ctexts], intern)
         events.append({"run": i, "kind": "equalp", "x": rows_p, "y": rows_c, "kx": kx, "rx": rx, "ky": ky, "ry": ry,
                        "z": [], "ex": []})
-        if m == "rs" and variant != 5:   # "identical" must not mean "identically wrong": the coloured run is also judged by Obs_Stream
+        if m == "rs" and variant not in (5, 6):   # "identical" must not mean "identically wrong": the coloured run is also judged by Obs_Stream
             # (a CR at the end of a line is dropped by delta - permitted - so it is not part of the text expected)
             ev, rows = stream.run_event(len(sevents), h, [t[:-1] if t.endswith("\r") else t for t in texts], rc_, {"keep": False, "tabs": 8, "colorOnly": False,
                                                                       "buf": 32, "hhFile": True, "rel": False}, intern=intern, skin={})
@@ -121,23 +160,31 @@ def run(tier):
     for keep in (False, True):
         for sgr in MOVED if tier == "thorough" else MOVED[::2] + MOVED[1::4]:
             for cls in ("minus", "plus"):
-                mjobs.append((sgr, cls, keep))
+                mjobs.append((sgr, cls, keep, None))
+    # map-styles: the moved line is shown in the style assigned to its input colours (both colour depths)
+    for i, sgr in enumerate(MOVED):
+        for tc in ("always", "never"):
+            mjobs.append((sgr, ["minus", "plus"][i % 2], False, tc))
 
     def moved_one(job):
-        sgr, cls, keep = job
+        sgr, cls, keep, mapped = job
         h = [L("diff", 1, 1, "mod"), L("index"), L("mmm", 1), L("ppp", 1), L("hh"), L("zero"), L(cls), L("zero")]
         data, texts = gitskin.concretise(h)
         ctexts = gitskin.colourise(h, texts, 0)
         ctexts[6] = f"\x1b[{sgr}m{texts[6]}\x1b[m"
         args = gitskin.RS_ARGS + (["--keep-plus-minus-markers"] if keep else [])
+        if mapped:
+            args = args + ["--true-color", mapped, "--map-styles", f"{sgr_to_style(sgr)} => ul 51 19"]
         r = core.run_delta(args, "".join(t + "\n" for t in ctexts).encode())
         return ctexts[6], r
 
     mres = core.pmap(moved_one, mjobs)
-    for j, ((sgr, cls, keep), (cline, r)) in enumerate(zip(mjobs, mres)):
+    for j, ((sgr, cls, keep, mapped), (cline, r)) in enumerate(zip(mjobs, mres)):
         rows = r.out.split(b"\n")
         want, _ = lexer.cells(lexer.tokens(cline.encode()))
         want = want[1:]     # the marker column is delta's to paint (re-inserted when markers are kept)
+        if mapped:          # every character in the style the map assigns: underline, 51 on 19
+            want = [(g, (51,), (19,), frozenset({"ul"}), lk) for g, fg, bg, at, lk in want]
         # the row that shows the moved line: the one containing its payload token
         hit = [b for b in rows if b"tokZ7Z" in b]
         got = lexer.cells(lexer.tokens(hit[0]))[0] if len(hit) == 1 else []
@@ -156,9 +203,10 @@ def run(tier):
                         f"output differs between plain and git-coloured input (colouring variant {variant}) at row {f['at']} in "
                         f"mode {m} for [{stream.shape(h)[:200]}]", {"history": h, "mode": m, "run": rc_.to_json(), "failure": f})
         else:
-            sgr, cls, keep = mjobs[f["run"] - len(jobs)]
-            V.violation(f"moved:{sgr}:{cls}:{keep}", f"{cls} line coloured ESC[{sgr}m by git is not shown in exactly those colours "
-                        f"(first difference at character {f['at']}, markers kept={keep})",
+            sgr, cls, keep, mapped = mjobs[f["run"] - len(jobs)]
+            V.violation(f"moved:{sgr}:{cls}:{keep}:{mapped}", f"{cls} line coloured ESC[{sgr}m by git is not shown in "
+                        + (f"the style map-styles assigns to '{sgr_to_style(sgr)}' (true-color {mapped}) " if mapped else "exactly those colours ")
+                        + f"(first difference at character {f['at']}, markers kept={keep})",
                         {"sgr": sgr, "cls": cls, "run": mres[f['run'] - len(jobs)][1].to_json()})
     for f in sfailed:
         h, m, variant = jobs[smeta[f["run"]]]
